@@ -5,6 +5,7 @@ import (
 
 	"github.com/dgraph-io/badger/v4/skl"
 	"github.com/dgraph-io/badger/v4/y"
+	"github.com/dgraph-io/ristretto/v2/z"
 )
 
 // H-PENDING (second part): several iterators in the life of ONE read-write transaction, with
@@ -115,4 +116,60 @@ func VpHPendingReiter() {
 		scan(reverse, "C04,C01:reiter.later-iterator-reflects-later-write")
 		vpCover("reiter.third")
 	}
+}
+
+// H-READTRACK (C02): every read of database state through an iterator is recorded for conflict
+// detection — also for a key the transaction itself has written AFTER the iterator was created
+// (the iterator took its copy of the pending writes at creation, so what it returns for that key is
+// the state of the database, not the pending write). Real: Txn.SetEntry/modify (conflictKeys),
+// Txn.NewIterator, Iterator.Seek -> Txn.addReadKey.
+func VpHReadTracking() {
+	k := vpBytes("key", 1+vpChoose("klen", 2))
+	other := vpBytes("other", 1)
+	db := &DB{}
+	db.opt.NamespaceOffset = -1
+	db.opt.ValueLogFileSize = 1 << 20
+	db.opt.maxBatchCount = 1000
+	db.opt.maxBatchSize = 1 << 20
+	db.opt.DetectConflicts = true
+	db.threshold = &vlogThreshold{}
+	db.threshold.valueThreshold.Store(1 << 10)
+	sl := &skl.Skiplist{}
+	sl.IncrRef()
+	db.mt = &memTable{sl: sl}
+	db.lc = &levelsController{kv: db}
+	txn := &Txn{readTs: 10, db: db, update: true, pendingWrites: map[string]*Entry{}, conflictKeys: map[uint64]struct{}{}}
+	vpStub("(*badger/skl.Skiplist).NewUniIterator", func(s *skl.Skiplist, reversed bool) *skl.UniIterator { return &skl.UniIterator{} })
+	vpStub("(*badger/skl.UniIterator).Next", func(u *skl.UniIterator) {})
+	vpStub("(*badger/skl.UniIterator).Rewind", func(u *skl.UniIterator) {})
+	vpStub("(*badger/skl.UniIterator).Seek", func(u *skl.UniIterator, key []byte) {})
+	vpStub("(*badger/skl.UniIterator).Key", func(u *skl.UniIterator) []byte { return nil })
+	vpStub("(*badger/skl.UniIterator).Value", func(u *skl.UniIterator) y.ValueStruct { return y.ValueStruct{} })
+	vpStub("(*badger/skl.UniIterator).Valid", func(u *skl.UniIterator) bool { return false })
+	vpStub("(*badger/skl.UniIterator).Close", func(u *skl.UniIterator) error { return nil })
+
+	recorded := func(key []byte) bool {
+		fp := z.MemHash(key)
+		has := false
+		for _, r := range txn.reads {
+			has = vpOr(has, r == fp)
+		}
+		return has
+	}
+	// what the transaction wrote before the iterator exists: nothing, the key itself, another key
+	switch vpChoose("written-before", 3) {
+	case 1:
+		vpAssert(txn.SetEntry(NewEntry(k, []byte{1})) == nil, "C02:readtrack.write-accepted")
+	case 2:
+		vpAssert(txn.SetEntry(NewEntry(other, []byte{1})) == nil, "C02:readtrack.write-accepted")
+	}
+	it := txn.NewIterator(IteratorOptions{Reverse: vpChoose("reverse", 2) == 1})
+	// ... and after it was created
+	if vpChoose("written-after", 2) == 1 {
+		vpAssert(txn.SetEntry(NewEntry(k, []byte{2})) == nil, "C02:readtrack.write-accepted")
+		vpCover("readtrack.written-after-iterator")
+	}
+	it.Seek(k)
+	vpAssert(recorded(k), "C02:readtrack.seek-key-recorded")
+	it.Close()
 }
